@@ -7,7 +7,7 @@
    decided on every run by the three-way correspondence (implementation,
    extracted model, extracted spec_parse); see DESIGN.md §6 C01. *)
 From SJ Require Import Model.Base Model.RefTables Spec.Json Model.Number Model.Str Model.Stage2 Model.Driver
-     Proofs.NumLex Proofs.NumberProofs Proofs.StrProofs Proofs.AtomProofs Tie.GoTablesTie Tie.StrTablesTie.
+     Proofs.NumLex Proofs.NumberProofs Proofs.StrProofs Proofs.AtomProofs Proofs.AcceptProofs Model.Tape Tie.GoTablesTie Tie.StrTablesTie.
 Open Scope N_scope.
 
 (* the full statement (not yet a theorem) *)
@@ -15,6 +15,16 @@ Definition C01_full : Prop :=
   forall (copy : bool) (bs : bytes),
     spec_parse bs <> SOut -> spec_parse bs <> SFuel ->
     (is_ok (parse_model copy bs) = true <-> exists d, spec_parse bs = SOk d).
+
+(* PROVED HALF of C01_full — completeness of acceptance: every RFC 8259 text
+   with an object/array root and finite numbers (spec_parse = SOk) is accepted,
+   in both string modes, whatever its size, layout and position relative to
+   64-byte blocks and index buffers; and the tape denotes exactly the
+   specification's document. *)
+Theorem C01_accepts_every_valid_document : forall (copy : bool) (bs : bytes) (d : doc),
+  N.of_nat (length bs) < 2 ^ 55 -> spec_parse bs = SOk d ->
+  exists p, parse_model copy bs = Ok p /\ denote (p_msg p) (p_strings p) (p_tape p) = Some [d].
+Proof. exact parse_accepts_valid. Qed.
 
 (* numbers: accepted by the model of parseNumber iff an RFC 8259 literal with a
    finite value, followed by nothing or an end-of-value byte *)
@@ -58,6 +68,7 @@ Proof. exact tie_jsonMarkup. Qed.
 Theorem C01_tie_string_tables : digittoval_diff = [] /\ escape_map_diff = [].
 Proof. exact (conj tie_digittoval tie_escape_map). Qed.
 
+Print Assumptions C01_accepts_every_valid_document.
 Print Assumptions C01_token_number_partial.
 Print Assumptions C01_token_true_partial.
 Print Assumptions C01_token_string_accept_partial.
